@@ -54,6 +54,8 @@ class Contract:
         self.ghost_fields = set(kw.pop("ghost_fields", []))
         # frame of modular calls on heap maps: [(map expression, key expression)] evaluated in the pre-state
         self.modifies_maps = list(kw.pop("modifies_maps", []))
+        # names of opaque heap predicates (pyvc.spec.HeapPred) whose definition this contract's proof may unfold
+        self.reveal = set(kw.pop("reveal", []))
         if kw:
             raise TypeError("unknown contract options %r for %s" % (list(kw), key))
         self._clauses = {}
